@@ -169,3 +169,14 @@ func gate(tier string) map[string]int {
 		"server_serving_after_attack":       6,
 	}
 }
+
+// setupCase runs a set-up step as a logged case; under a replay filter for
+// another case it still runs (unlogged), so the replayed case finds its
+// environment.
+func setupCase(c *fw.Ctx, id string, input interface{}, fn func()) {
+	if c.OnlyCase != "" && c.OnlyCase != id {
+		fn()
+		return
+	}
+	c.Case(id, input, fn)
+}
